@@ -4,20 +4,42 @@
      t_op on the tree of a live layout          --a_op_tree---->  abstract operation a_op (RelLive)
      a_op on a well-formed live layout: defined, well-formed, list model on contents   (RelLiveWfP, RelLiveStepP)
      live_of f: the layout of the field f, same tree; norm l: the field with the text of l (RelLiveNormP)
-   Entry::replace: the machine level (op_step_tree) covers it for the layouts the constructors
-   build only (RelEditStP.ereplace_runs); the tree level and everything above cover it here. *)
+   All twelve operations (the ten of the property, set_architectures, add_profile). *)
 From V.model Require Import Base RelLex RelParse RelAcc RelGrammar.
 From V.model Require Import RelEdit RelEditSpec RelEditTree RelLive.
-From V.proofs Require Import BaseP RelEditP RelEditStP RelEditHistP RelEditTreeP RelGrammarAccP.
+From V.proofs Require Import BaseP RelEditP RelEditStP RelEditHistP RelEditTreeP RelEditReplaceP RelGrammarAccP.
 From V.proofs Require Import RelLiveP RelLiveStepP RelLiveWfP RelLiveNormP.
 Set Default Timeout 60.
 
-Definition not_ereplace (o : aop) : bool := match o with AEReplace _ _ _ => false | _ => true end.
-
 Lemma operands_ok_plain o : operands_ok o = true -> operands_plain o = true.
 Proof. destruct o; cbn [operands_ok operands_plain]; intros H; andb_hyps; auto. Qed.
-Lemma operands_ok_new o : operands_ok o = true -> not_ereplace o = true -> operands_new o = true.
-Proof. destruct o; cbn [operands_ok operands_new not_ereplace]; intros H Hn; andb_hyps; auto. Qed.
+Lemma operands_ok_new o : operands_ok o = true -> operands_new_all o = true.
+Proof. destruct o; cbn [operands_ok operands_new_all]; intros H; andb_hyps; auto. Qed.
+
+(* an alternative of a live layout begins with its name *)
+Lemma relation_child_lrel e x : In x (lentry_children e) -> is_relation x = true -> exists r, x = lrel_tree r.
+Proof.
+  unfold lentry_children. intros [<-|Hin] Hx; [eauto|]. apply in_app_or in Hin as [Hin|Hin].
+  - apply in_flat_map in Hin as ([[w1 w2] r] & _ & Hin). unfold alt_part in Hin. cbn [fst snd] in Hin.
+    apply in_app_or in Hin as [Hin|[<-|Hin]].
+    + apply in_map_iff in Hin as (w & <- & _). now rewrite is_relation_wtree in Hx.
+    + discriminate.
+    + apply in_app_or in Hin as [Hin|[<-|[]]]; [|eauto].
+      apply in_map_iff in Hin as (w & <- & _). now rewrite is_relation_wtree in Hx.
+  - apply in_map_iff in Hin as (w & <- & _). now rewrite is_relation_wtree in Hx.
+Qed.
+Lemma ereplace_ready_ltree o l : ereplace_ready o (ltree l).
+Proof.
+  destruct o; cbn [ereplace_ready]; auto. intros ci cj O Hp HG.
+  destruct (rel_pos_inv _ _ _ _ _ Hp) as (E & P1 & P2 & P3 & _).
+  rewrite entry_pos_ltree in P1. destruct (nth_index_re_split _ _ _ P1) as (pre & e & post & -> & <- & _).
+  rewrite child_at_ltree in P2. injection P2 as <-. cbn [relem_tree lentry_tree children] in P3.
+  destruct (nth_index_split _ _ _ _ P3) as (rp & x & rq & Ecs & <- & Px).
+  assert (HO : O = x).
+  { cbn [get_path] in HG. fold (child_at (ltree (pre ++ RE e :: post)) (length pre)) in HG. rewrite child_at_ltree in HG.
+    cbn [relem_tree lentry_tree children] in HG. rewrite Ecs, nth_error_app_len in HG. congruence. }
+  subst O. destruct (relation_child_lrel e x) as (r0 & ->); [rewrite Ecs; apply in_elt|exact Px|]. reflexivity.
+Qed.
 
 (* ------------------------------------------------------------------ (1) one operation *)
 (* on the trees: any well-formed live layout, every operation *)
@@ -34,7 +56,7 @@ Proof.
 Qed.
 
 (* on the machine *)
-Theorem live_step b o l st : lwf b l = true -> operands_ok o = true -> not_ereplace o = true ->
+Theorem live_step b o l st : lwf b l = true -> operands_ok o = true ->
   x_in_range (fst (lcontent l)) o = true -> holds st (ltree l) ->
   exists l' st', a_op o l = Some l' /\
                  run_ops fixed (compile o) st = Ok st' /\ holds st' (ltree l') /\
@@ -42,8 +64,8 @@ Theorem live_step b o l st : lwf b l = true -> operands_ok o = true -> not_erepl
                  lcontent l' = (xstep (fst (lcontent l)) o, snd (lcontent l)) /\
                  lentries l' = estep (lentries l) o.
 Proof.
-  intros H Ho Hn Hr Hst. destruct (live_step_tree b o l H Ho Hr) as (l' & Ha & Ht & Hw & Hc & He).
-  destruct (op_step_tree o (ltree l) (ltree l') st (operands_ok_new o Ho Hn) Hst Ht) as (st' & R & Hst').
+  intros H Ho Hr Hst. destruct (live_step_tree b o l H Ho Hr) as (l' & Ha & Ht & Hw & Hc & He).
+  destruct (op_step_tree_all o (ltree l) (ltree l') st (operands_ok_new o Ho) (ereplace_ready_ltree o l) Hst Ht) as (st' & R & Hst').
   exists l', st'. auto 10.
 Qed.
 
@@ -95,14 +117,14 @@ Fixpoint a_trace (ops : list aop) (l : lroot) : option (list lroot) :=
                  end
   end.
 
-Theorem live_history b ops : forall l st, lwf b l = true -> forallb operands_ok ops = true -> forallb not_ereplace ops = true ->
+Theorem live_history b ops : forall l st, lwf b l = true -> forallb operands_ok ops = true ->
   xsteps_in_range (fst (lcontent l)) ops = true -> holds st (ltree l) ->
   exists l' st', a_ops ops l = Some l' /\
                  run_ops fixed (compile_all ops) st = Ok st' /\ holds st' (ltree l') /\
                  lwf b l' = true /\
                  lcontent l' = (fold_left xstep ops (fst (lcontent l)), snd (lcontent l)).
 Proof.
-  induction ops as [|o rest IH]; intros l st H Ho Hn Hr Hst.
+  induction ops as [|o rest IH]; intros l st H Ho Hr Hst.
   - exists l, st. cbn. repeat split; auto; now destruct (lcontent l).
   - cbn [forallb xsteps_in_range] in *. andb_hyps.
     destruct (live_step b o l st) as (l1 & st1 & Ha & R1 & Hst1 & Hw1 & Hc1 & _); auto.
@@ -132,7 +154,7 @@ Proof.
 Qed.
 
 (* ------------------------------------------------------------------ the whole, from a well-formed field *)
-Theorem history_any_field b ops f st : wf_rfield b f = true -> forallb operands_ok ops = true -> forallb not_ereplace ops = true ->
+Theorem history_any_field b ops f st : wf_rfield b f = true -> forallb operands_ok ops = true ->
   xsteps_in_range (fst (rcontent f)) ops = true -> holds st (rtree_of f) ->
   exists l' st',
     a_ops ops (live_of f) = Some l' /\
@@ -144,8 +166,8 @@ Theorem history_any_field b ops f st : wf_rfield b f = true -> forallb operands_
               racc (rtree_of (norm l')) = Ok a /\
               racc_view a = (fold_left xstep ops (fst (rcontent f)), snd (rcontent f)).
 Proof.
-  intros H Ho Hn Hr Hst. pose proof (lwf_live_of b f H) as Hl. rewrite <- lcontent_live_of in Hr. rewrite <- ltree_live_of in Hst.
-  destruct (live_history b ops (live_of f) st Hl Ho Hn Hr Hst) as (l' & st' & Ha & R & Hst' & Hw & Hc).
+  intros H Ho Hr Hst. pose proof (lwf_live_of b f H) as Hl. rewrite <- lcontent_live_of in Hr. rewrite <- ltree_live_of in Hst.
+  destruct (live_history b ops (live_of f) st Hl Ho Hr Hst) as (l' & st' & Ha & R & Hst' & Hw & Hc).
   exists l', st'. destruct (holds_root_tree _ _ Hst') as [RT RX]. rewrite lcontent_live_of in Hc.
   split; [exact Ha|]. split; [exact R|]. split; [exact RT|]. split; [now rewrite (rrender_norm b l' Hw)|].
   split; [now apply wf_norm|]. split; [now rewrite (rcontent_norm b l' Hw)|].
